@@ -291,6 +291,16 @@ func (in *Interp) assert(fr *frame, c *Term, msg string) {
 		}
 		in.addPC(c)
 	default:
+		if m := in.probeBoundary(append(append([]*Term{}, p.PC...), neg)); m != nil {
+			// the solver could not decide, but a boundary value refutes the assertion: a genuine counterexample
+			in.endQuery()
+			in.stats.ProbeHits++
+			p.LastModel = m
+			p.ModelPCLen = len(p.PC)
+			in.recordViolation("assert", msg, m, fr)
+			in.addPC(c)
+			return
+		}
 		p.Inconclusive = append(p.Inconclusive, "assert unknown: "+msg)
 		if d := os.Getenv("SYMGO_DUMP"); d != "" {
 			in.dumpN++
